@@ -236,6 +236,40 @@ def pderiv : Nat → String → Poly → Option Poly
     let tbl := (atomsOf p).map fun a => (a, datom (pderiv fuel x) x a)
     pderivWith (fun a => (tbl.lookup a).bind id) p
 
+/-! ### equality modulo the defining relation of reciprocals
+
+`inv(k)` and `pow(k,-n)` are atoms of the carrier, so `det · inv(det)` and `1` are different normal forms.
+`eqModInv` decides equality modulo the relations `inv(k)·k = 1` and `pow(k,-n)·kⁿ = 1`: the difference is
+multiplied by the power of `k` that clears the atom (`clearAtom`), which is sound wherever `k ≠ 0`, i.e.
+wherever the reciprocal is defined (`clearAtom_sound` in `Props/C04.lean`). -/
+
+/-- exponent of atom `a` in a monomial -/
+def expOf (a : String) (m : Mono) : Nat := (m.lookup a).getD 0
+
+/-- `D · Qⁿ` rewritten with `a · Q = 1`, where `n` is the largest exponent of `a` in `D`: the result has no `a` -/
+def clearAtom (a : String) (Q : Poly) (D : Poly) : Poly :=
+  let n := D.terms.foldl (fun acc (m, _) => max acc (expOf a m)) 0
+  D.terms.foldl (fun (acc : Poly) (m, c) =>
+    acc + Poly.scale c (monoPoly (m.filter (·.1 != a))) * Poly.npow Q (n - expOf a m)) Poly.zero
+
+/-- the polynomial `Q` with `a · Q = 1` for a reciprocal atom `a` -/
+def invRelation (a : String) : Option Poly :=
+  match atomArgs a with
+  | some ("inv", [k]) => parseKey k
+  | some ("pow", [k, e]) => do
+    let q ← (← parseKey e).toRat?
+    if q.den == 1 && q.num < 0 then some (Poly.npow (← parseKey k) (-q.num).toNat) else none
+  | _ => none
+
+def eqModInv : Nat → Poly → Poly → Bool
+  | 0, a, b => a == b
+  | fuel + 1, a, b =>
+    let D := a - b
+    if D.isZero then true else
+    match (atomsOf D).findSome? fun at' => (invRelation at').map fun Q => (at', Q) with
+    | none => false
+    | some (at', Q) => eqModInv fuel (clearAtom at' Q D) Poly.zero
+
 /-! ### substitution of a point -/
 
 inductive PointErr
